@@ -104,7 +104,7 @@ func body(h history) func() {
 		} else {
 			c2s, s2c = mcrt.NewPipe("c2s"), mcrt.NewPipe("s2c")
 		}
-		peer := &atpkit.Peer{In: c2s.Reader(), Out: s2c.Writer(), OutLink: s2c, Hello: hello, Plans: map[string]atpkit.RunPlan{}}
+		peer := &atpkit.Peer{In: c2s.Reader(), Out: s2c.Writer(), OutLink: s2c, Hello: hello, Plans: map[string]atpkit.RunPlan{}, WithDebugLogs: true}
 		o.peer = peer
 		for _, g := range h.Groups {
 			for _, x := range g {
